@@ -41,18 +41,21 @@ def discharge(ob):
     r = s.check()
     backend = "z3(e-matching)"
     model_solver = s
-    if r == z3.unknown and ob.size_terms:
+    if r == z3.unknown:
         # pass 2: look for a *small* counter-model (lengths <= 2, 3; integers in [-6, 6]).  Adding
         # constraints can only lose models, so a model found here is a genuine refutation.
         # definitional axioms (cnt/sel of a filter) whose symbols do not occur in the goal are a
         # conservative extension: dropping them keeps every model extendable
         # (their symbols must occur neither in the goal nor in any other hypothesis)
-        gtxt = ob.goal.sexpr() + " ".join(h.sexpr() for h in ob.hyps if h.get_id() not in ob.definitional)
+        def is_dm(h):
+            return "dm_x" in h.sexpr()[:200]
+
+        gtxt = ob.goal.sexpr() + " ".join(h.sexpr() for h in ob.hyps if h.get_id() not in ob.definitional and not is_dm(h))
         light = [h for h in ob.hyps if not (h.get_id() in ob.definitional and all(nm not in gtxt for nm in ob.definitional[h.get_id()]))]
         # the div/mod axiom is definitional as well (py_quo/py_rem are total functions)
-        others = gtxt + " ".join(h.sexpr() for h in light if "dm_x" not in h.sexpr()[:200])
+        others = gtxt + " ".join(h.sexpr() for h in light if not is_dm(h))
         if "py_rem" not in others and "py_quo" not in others:
-            light = [h for h in light if "dm_x" not in h.sexpr()[:200]]
+            light = [h for h in light if not is_dm(h)]
         for bound in (2, 3):
             sb = _solver(light, ob.goal, True, 3000)
             for t in ob.size_terms:
